@@ -71,6 +71,7 @@ struct Plan {
 struct Log {
 	uint64_t h = 0xcbf29ce484222325ULL;
 	bool verbose = false;
+	bool stream = false;  // print each event immediately (replay of crashing plans)
 	std::string text;
 	uint64_t events = 0;
 	void ev(const char *fmt, ...) __attribute__((format(printf, 2, 3)));
@@ -127,6 +128,7 @@ struct World {
 	int faultkind(const std::string &n) const;
 };
 World *the_world(); // each sim_<world> binary links exactly one
+extern int g_mode;     // --mode N: selects a sub-population of plans for worlds that serve two properties
 
 // ---------------------------------------------------------------- seams
 struct Seams {
